@@ -11,8 +11,8 @@ import (
 )
 
 var gsvdKinds = []mat.GSVDKind{
-	mat.GSVDNone, mat.GSVDU, mat.GSVDV, mat.GSVDQ, mat.GSVDU | mat.GSVDV, mat.GSVDU | mat.GSVDQ, mat.GSVDV | mat.GSVDQ,
-	mat.GSVDAll, mat.GSVDAll, mat.GSVDAll, mat.GSVDAll, mat.GSVDAll, mat.GSVDAll, mat.GSVDAll,
+	mat.GSVDAll, mat.GSVDAll, mat.GSVDAll, mat.GSVDAll, mat.GSVDAll, mat.GSVDAll, mat.GSVDAll, mat.GSVDNone,
+	mat.GSVDU, mat.GSVDV, mat.GSVDQ, mat.GSVDU | mat.GSVDV, mat.GSVDU | mat.GSVDQ, mat.GSVDV | mat.GSVDQ,
 }
 
 type gsvdCase struct {
